@@ -416,7 +416,12 @@ fn apply_add_fns(builder: &mut FnGraphBuilder<Fun>, run: &[Op], f_count: &mut us
 
 /// Runs the ops against a fresh `FnGraphBuilder`, then `build()`.
 pub fn build_ops(ops: &[Op]) -> Built {
-    let mut builder = FnGraphBuilder::<Fun>::new();
+    // `new()` and `Default::default()` must give the same empty builder: alternate between them
+    let mut builder = if ops.len() % 2 == 0 {
+        FnGraphBuilder::<Fun>::new()
+    } else {
+        FnGraphBuilder::<Fun>::default()
+    };
     let mut r = Vec::with_capacity(ops.len());
     let mut f_count = 0usize;
     let mut k = 0usize;
